@@ -68,10 +68,8 @@ def run_case(n, edges, requested):
             raised = None
         except T.TaskError as e:
             raised = e
-        except RecursionError as e:
-            raised = e
         except Exception as e:
-            return ["no exception other than TaskError, got %r" % (e,)]
+            return ["no exception other than TaskError (a loop must be *reported*), got %s" % (type(e).__name__,)]
         if cyc:
             if raised is None:
                 errs.append("a dependency loop reachable from the requested targets is reported (TaskError)")
